@@ -17,6 +17,10 @@ type verifStepCfg struct {
 	classes         []stun.MessageClass
 	onlyAuth        bool // only correctly authenticated messages (C03/C20 lemmas)
 	userHandler     bool
+	role            int // 0 case split, 1 controlling, 2 controlled
+	maxPend         int // 0 => 2
+	liteFixed       int // with lite==0: 1 forces a lite agent
+	smallPrio       bool // candidate priorities range over 1..256 instead of all 32 bits
 }
 
 type verifPend struct {
@@ -69,11 +73,46 @@ func (s *verifStep) knownRemote() (Candidate, bool) {
 	return nil, false
 }
 
+// sourceRemote: the remote candidate standing for the source address after the
+// step: a pre-existing one, or the peer-reflexive candidate an authenticated
+// request from a new source has just created.
+func (s *verifStep) sourceRemote() (Candidate, bool) {
+	if r, ok := s.knownRemote(); ok {
+		return r, true
+	}
+	if s.class != stun.ClassRequest {
+		return nil, false
+	}
+	for _, set := range s.w.a.remoteCandidates {
+		for _, r := range set {
+			isOld := false
+			for _, o := range s.w.remotes {
+				if o == r {
+					isOld = true
+				}
+			}
+			if !isOld && r.Type() == CandidateTypePeerReflexive && verifSrcIsRemote(s.src, r) {
+				return r, true
+			}
+		}
+	}
+	return nil, false
+}
+
 func verifInboundStep(cfg verifStepCfg) *verifStep {
 	s := &verifStep{}
-	s.controlling = verifChoice(2) == 1
+	switch cfg.role {
+	case 1:
+		s.controlling = true
+	case 2:
+		s.controlling = false
+	default:
+		s.controlling = verifChoice(2) == 1
+	}
 	if cfg.lite == 1 {
 		s.lite = verifChoice(2) == 1
+	} else if cfg.liteFixed == 1 {
+		s.lite = true
 	}
 	w := verifNewWorld(s.controlling, s.lite, cfg.nLocal, cfg.nRemote)
 	s.w = w
@@ -93,14 +132,19 @@ func verifInboundStep(cfg verifStepCfg) *verifStep {
 		p.nominateOnBindingSuccess = verifBool()
 	}
 	// priorities: symbolic through the override (candidates keep their real code path)
+	prio := func() uint32 {
+		if cfg.smallPrio {
+			return 1 + uint32(verifU8())
+		}
+		p := verifU32()
+		verifAssume(p != 0)
+		return p
+	}
 	for _, l := range w.locals {
-		l.priorityOverride = verifU32()
-		verifAssume(l.priorityOverride != 0)
+		l.priorityOverride = prio()
 	}
 	for _, r := range w.remotes {
-		b := verifBaseOf(r)
-		b.priorityOverride = verifU32()
-		verifAssume(b.priorityOverride != 0)
+		verifBaseOf(r).priorityOverride = prio()
 	}
 	// selection (Inv_sel: a selected pair is listed, Succeeded and nominated)
 	s.selBeforeIdx = verifChoice(len(a.checklist)+1) - 1
@@ -117,9 +161,13 @@ func verifInboundStep(cfg verifStepCfg) *verifStep {
 
 	// outstanding transactions
 	now := time.Now()
-	nPend := verifChoice(3)
+	maxPend := cfg.maxPend
+	if maxPend == 0 {
+		maxPend = 2
+	}
+	nPend := verifChoice(maxPend + 1)
 	for i := 0; i < nPend; i++ {
-		p := verifPend{id: verifTxID(), from: verifChoice(cfg.nLocal)}
+		p := verifPend{id: verifTxID(), from: verifInt(0, cfg.nLocal-1)}
 		p.dst = verifSrcV4() // arbitrary destination (may or may not equal a remote)
 		p.nt = NetworkType(verifInt(1, 4))
 		p.age = time.Duration(verifInt(0, int(20*time.Second)))
@@ -127,6 +175,13 @@ func verifInboundStep(cfg verifStepCfg) *verifStep {
 		if cfg.renomination && verifChoice(2) == 1 {
 			v := verifU32() & 0xFFFFFF
 			p.nom = &v
+		}
+		for _, q := range s.pend { // Inv: outstanding transaction ids are pairwise distinct (96-bit random)
+			same := true
+			for k := range q.id {
+				same = verifAnd(same, q.id[k] == p.id[k])
+			}
+			verifAssume(verifNot(same))
 		}
 		s.pend = append(s.pend, p)
 		a.pendingBindingRequests = append(a.pendingBindingRequests, bindingRequest{
@@ -167,7 +222,7 @@ func verifInboundStep(cfg verifStepCfg) *verifStep {
 		setters = append(setters, UseCandidate())
 	}
 	if cfg.renomination {
-		s.nomKind = verifChoice(3)
+		s.nomKind = verifChoice(2 + verifTier())
 		switch s.nomKind {
 		case 1:
 			s.nomValue = verifU32() & 0xFFFFFF
@@ -177,7 +232,7 @@ func verifInboundStep(cfg verifStepCfg) *verifStep {
 		}
 	}
 	// role attribute of the opposite role (no conflict); conflicts are C05
-	if s.class == stun.ClassRequest {
+	if s.class == stun.ClassRequest && !cfg.onlyAuth {
 		s.ctrl = verifChoice(2)
 	}
 	if s.ctrl == 1 {
@@ -216,7 +271,11 @@ func verifInboundStep(cfg verifStepCfg) *verifStep {
 
 	// source address: exact remote, IPv4-mapped form of it, or arbitrary
 	mayCreatePrflx := s.class == stun.ClassRequest // whatever its credentials: the bound must not depend on the code's verdict
-	switch verifChoice(3) {
+	nSrc := 3
+	if cfg.onlyAuth && s.class != stun.ClassRequest {
+		nSrc = 2 // authenticated responses: known sources (unknown ones are C02's lemma)
+	}
+	switch (verifChoice(nSrc) + 1) % 3 {
 	case 1:
 		ra := w.remotes[0].addrPort()
 		s.src = netip.AddrPortFrom(netip.AddrFrom16(ra.Addr().As16()), ra.Port())
@@ -255,6 +314,18 @@ func (s *verifStep) usernameOK() bool {
 // matchingPending: oracle for "transaction id belongs to a still-outstanding
 // request sent over the same transport to exactly the source address".
 func (s *verifStep) matchingPending() (bool, *verifPend) {
+	return s.matchingPendingWithin(maxBindingRequestTimeout)
+}
+
+// matchingPendingSurely: as matchingPending but with a 100 ms margin below the
+// expiry threshold, for "always" lemmas: the handler reads the clock a little
+// later than the harness, so an age within the margin may legitimately count
+// as expired (no property fixes strictness at the instant of equality).
+func (s *verifStep) matchingPendingSurely() (bool, *verifPend) {
+	return s.matchingPendingWithin(maxBindingRequestTimeout - 100*time.Millisecond)
+}
+
+func (s *verifStep) matchingPendingWithin(limit time.Duration) (bool, *verifPend) {
 	local := s.w.locals[s.localIdx]
 	for i := range s.pend {
 		p := &s.pend[i]
@@ -262,7 +333,7 @@ func (s *verifStep) matchingPending() (bool, *verifPend) {
 		for k := range p.id {
 			idEq = verifAnd(idEq, p.id[k] == s.id[k])
 		}
-		fresh := p.age < maxBindingRequestTimeout
+		fresh := p.age < limit
 		sameTransport := p.nt == local.NetworkType()
 		sameAddr := verifAnd(p.dst.Addr().Unmap() == s.src.Addr().Unmap(), p.dst.Port() == s.src.Port())
 		if verifAnd(verifAnd(idEq, fresh), verifAnd(sameTransport, sameAddr)) {
